@@ -26,6 +26,7 @@ from cirq import linalg
 from cirq._doc import doc_private
 from cirq.protocols import qid_shape_protocol
 from cirq.protocols.apply_unitary_protocol import apply_unitary, ApplyUnitaryArgs
+from cirq.protocols.has_unitary_protocol import has_unitary
 from cirq.protocols.kraus_protocol import kraus
 
 # This is a special indicator value used by the apply_channel method
@@ -276,12 +277,15 @@ def _apply_unitary(val: Any, args: ApplyChannelArgs) -> np.ndarray | None:
 
     If `val` does not support `apply_unitary` returns None.
     """
+    # Decomposing a non-unitary value can apply a unitary prefix of its decomposition to the
+    # target in place before giving up, so only decompose values that are known to be unitary.
+    allow_decompose = has_unitary(val)
     left_args = ApplyUnitaryArgs(
         target_tensor=args.target_tensor,
         available_buffer=args.auxiliary_buffer0,
         axes=args.left_axes,
     )
-    left_result = apply_unitary(val, left_args, None)
+    left_result = apply_unitary(val, left_args, None, allow_decompose=allow_decompose)
     if left_result is None:
         return None
     right_args = ApplyUnitaryArgs(
@@ -289,7 +293,7 @@ def _apply_unitary(val: Any, args: ApplyChannelArgs) -> np.ndarray | None:
         available_buffer=args.out_buffer,
         axes=args.right_axes,
     )
-    right_result = apply_unitary(val, right_args)
+    right_result = apply_unitary(val, right_args, allow_decompose=allow_decompose)
     np.conjugate(right_result, out=right_result)
     return right_result
 
